@@ -273,6 +273,20 @@ theorem C10_writes_locked_facts :
     lockedFirst "Stack" "Replace" = true ∧
     popGuarded = true := by decide
 
+/-- does the exported wrapper read the content of the receiver (`Len`, `IsEmpty`, `Index`, `IsFull`, an index expression …) at a
+position where it does not hold the lock? (`Gen.lockFacts`: `readsUnlocked`) -/
+def wrapperReadsContentUnlocked (k : Kind) : Bool :=
+  match lfact "Stack" k.wrapper with
+  | some f => f.readsUnlocked
+  | none => true
+
+/-- **no exported mutator decides anything about the content before the lock is taken.** What a wrapper may test outside the
+critical section is what no concurrent mutator changes (initialisation, the read-only flag, a nil argument); a length or
+emptiness test there is answered from a state another goroutine may be half-way through changing (repair F42: `Pop` and
+`Reverse` used to test `IsEmpty()` first and answered `(nil,false)` on a stack that is never empty). `skipPre` of the
+interleaving model is exactly this set of tests. -/
+theorem C10_wrappers_decide_under_lock : ∀ k ∈ Kind.all, wrapperReadsContentUnlocked k = false := by decide
+
 /-- the lock bookkeeping (`sc.ldr`) is written while the mutex is held: no write through the
 receiver before `Lock()` in `stack.lock`, none after `Unlock()` in `stack.unlock` -/
 theorem C10_bookkeeping_locked :
